@@ -81,6 +81,10 @@ const preludeAxioms = `(declare-fun born (Int) Int)
 (assert (forall ((a (Array Int Int)) (o Int) (n Int) (i Int)) (! (=> (and (<= 0 i) (< i n)) (= (seq_at (seqof a o n) i) (select a (+ o i)))) :pattern ((seq_at (seqof a o n) i)))))
 (assert (forall ((a (Array Int Int)) (o Int)) (! (= (seqof a o 0) seq_empty) :pattern ((seqof a o 0)))))
 (assert (forall ((a (Array Int Int)) (o Int)) (! (= (seqof a o 1) (seq_unit (select a o))) :pattern ((seqof a o 1)))))
+(assert (forall ((a (Array Int Int)) (o Int)) (! (= (seqof a o 2) (seq_cat (seq_unit (select a o)) (seq_unit (select a (+ o 1))))) :pattern ((seqof a o 2)))))
+(assert (forall ((a (Array Int Int)) (o Int)) (! (= (seqof a o 3) (seq_cat (seq_unit (select a o)) (seq_cat (seq_unit (select a (+ o 1))) (seq_unit (select a (+ o 2)))))) :pattern ((seqof a o 3)))))
+(assert (forall ((a (Array Int Int)) (o Int)) (! (= (seqof a o 4) (seq_cat (seqof a o 2) (seqof a (+ o 2) 2))) :pattern ((seqof a o 4)))))
+(assert (forall ((a (Array Int Int)) (o Int)) (! (= (seqof a o 8) (seq_cat (seqof a o 4) (seqof a (+ o 4) 4))) :pattern ((seqof a o 8)))))
 (assert (forall ((s GStr)) (! (= (str_of_seq (seq_of_str s)) s) :pattern ((seq_of_str s)))))
 (assert (forall ((q BSeq)) (! (= (seq_of_str (str_of_seq q)) q) :pattern ((str_of_seq q)))))
 (assert (forall ((s GStr)) (! (= (seq_len (seq_of_str s)) (slen_s s)) :pattern ((seq_of_str s)))))
@@ -108,22 +112,23 @@ const preludeAxioms = `(declare-fun born (Int) Int)
 (assert (forall ((a BSeq) (b BSeq) (lo Int) (hi Int)) (! (=> (and (<= (seq_len a) lo) (<= lo hi) (<= hi (+ (seq_len a) (seq_len b)))) (= (seq_sub (seq_cat a b) lo hi) (seq_sub b (- lo (seq_len a)) (- hi (seq_len a))))) :pattern ((seq_sub (seq_cat a b) lo hi)))))
 (assert (forall ((q BSeq) (a Int) (b Int) (c Int) (d Int)) (! (=> (and (<= 0 a) (<= a b) (<= b (seq_len q)) (<= 0 c) (<= c d) (<= d (- b a))) (= (seq_sub (seq_sub q a b) c d) (seq_sub q (+ a c) (+ a d)))) :pattern ((seq_sub (seq_sub q a b) c d)))))
 (assert (forall ((q BSeq) (n Int)) (! (=> (<= n 0) (= (seq_sub q 0 n) seq_empty)) :pattern ((seq_sub q 0 n)))))
+(assert (forall ((a Int) (b Int)) (! (= (bor a b) (bor b a)) :pattern ((bor a b)))))
 (assert (forall ((b Int)) (! (=> (>= b 0) (= (bor 0 b) b)) :pattern ((bor 0 b)))))
 (assert (forall ((a Int)) (! (=> (>= a 0) (= (bor a 0) a)) :pattern ((bor a 0)))))
-(assert (forall ((a Int) (b Int)) (! (=> (and (>= a 0) (= (mod a 2) 0) (<= 0 b) (< b 2)) (= (bor a b) (+ a b))) :pattern ((bor a b)))))
-(assert (forall ((a Int) (b Int)) (! (=> (and (>= a 0) (= (mod a 4) 0) (<= 0 b) (< b 4)) (= (bor a b) (+ a b))) :pattern ((bor a b)))))
-(assert (forall ((a Int) (b Int)) (! (=> (and (>= a 0) (= (mod a 8) 0) (<= 0 b) (< b 8)) (= (bor a b) (+ a b))) :pattern ((bor a b)))))
-(assert (forall ((a Int) (b Int)) (! (=> (and (>= a 0) (= (mod a 16) 0) (<= 0 b) (< b 16)) (= (bor a b) (+ a b))) :pattern ((bor a b)))))
-(assert (forall ((a Int) (b Int)) (! (=> (and (>= a 0) (= (mod a 256) 0) (<= 0 b) (< b 256)) (= (bor a b) (+ a b))) :pattern ((bor a b)))))
-(assert (forall ((a Int) (b Int)) (! (=> (and (>= a 0) (= (mod a 4096) 0) (<= 0 b) (< b 4096)) (= (bor a b) (+ a b))) :pattern ((bor a b)))))
-(assert (forall ((a Int) (b Int)) (! (=> (and (>= a 0) (= (mod a 65536) 0) (<= 0 b) (< b 65536)) (= (bor a b) (+ a b))) :pattern ((bor a b)))))
-(assert (forall ((a Int) (b Int)) (! (=> (and (>= a 0) (= (mod a 16777216) 0) (<= 0 b) (< b 16777216)) (= (bor a b) (+ a b))) :pattern ((bor a b)))))
-(assert (forall ((a Int) (b Int)) (! (=> (and (>= a 0) (= (mod a 134217728) 0) (<= 0 b) (< b 134217728)) (= (bor a b) (+ a b))) :pattern ((bor a b)))))
-(assert (forall ((a Int) (b Int)) (! (=> (and (>= a 0) (= (mod a 2147483648) 0) (<= 0 b) (< b 2147483648)) (= (bor a b) (+ a b))) :pattern ((bor a b)))))
-(assert (forall ((a Int) (b Int)) (! (=> (and (>= a 0) (= (mod a 4294967296) 0) (<= 0 b) (< b 4294967296)) (= (bor a b) (+ a b))) :pattern ((bor a b)))))
-(assert (forall ((a Int) (b Int)) (! (=> (and (>= a 0) (= (mod a 1099511627776) 0) (<= 0 b) (< b 1099511627776)) (= (bor a b) (+ a b))) :pattern ((bor a b)))))
-(assert (forall ((a Int) (b Int)) (! (=> (and (>= a 0) (= (mod a 281474976710656) 0) (<= 0 b) (< b 281474976710656)) (= (bor a b) (+ a b))) :pattern ((bor a b)))))
-(assert (forall ((a Int) (b Int)) (! (=> (and (>= a 0) (= (mod a 72057594037927936) 0) (<= 0 b) (< b 72057594037927936)) (= (bor a b) (+ a b))) :pattern ((bor a b)))))
+(assert (forall ((a Int) (b Int)) (! (=> (and (= (mod a 2) 0) (<= 0 b) (< b 2)) (= (bor a b) (+ a b))) :pattern ((bor a b)))))
+(assert (forall ((a Int) (b Int)) (! (=> (and (= (mod a 4) 0) (<= 0 b) (< b 4)) (= (bor a b) (+ a b))) :pattern ((bor a b)))))
+(assert (forall ((a Int) (b Int)) (! (=> (and (= (mod a 8) 0) (<= 0 b) (< b 8)) (= (bor a b) (+ a b))) :pattern ((bor a b)))))
+(assert (forall ((a Int) (b Int)) (! (=> (and (= (mod a 16) 0) (<= 0 b) (< b 16)) (= (bor a b) (+ a b))) :pattern ((bor a b)))))
+(assert (forall ((a Int) (b Int)) (! (=> (and (= (mod a 256) 0) (<= 0 b) (< b 256)) (= (bor a b) (+ a b))) :pattern ((bor a b)))))
+(assert (forall ((a Int) (b Int)) (! (=> (and (= (mod a 4096) 0) (<= 0 b) (< b 4096)) (= (bor a b) (+ a b))) :pattern ((bor a b)))))
+(assert (forall ((a Int) (b Int)) (! (=> (and (= (mod a 65536) 0) (<= 0 b) (< b 65536)) (= (bor a b) (+ a b))) :pattern ((bor a b)))))
+(assert (forall ((a Int) (b Int)) (! (=> (and (= (mod a 16777216) 0) (<= 0 b) (< b 16777216)) (= (bor a b) (+ a b))) :pattern ((bor a b)))))
+(assert (forall ((a Int) (b Int)) (! (=> (and (= (mod a 134217728) 0) (<= 0 b) (< b 134217728)) (= (bor a b) (+ a b))) :pattern ((bor a b)))))
+(assert (forall ((a Int) (b Int)) (! (=> (and (= (mod a 2147483648) 0) (<= 0 b) (< b 2147483648)) (= (bor a b) (+ a b))) :pattern ((bor a b)))))
+(assert (forall ((a Int) (b Int)) (! (=> (and (= (mod a 4294967296) 0) (<= 0 b) (< b 4294967296)) (= (bor a b) (+ a b))) :pattern ((bor a b)))))
+(assert (forall ((a Int) (b Int)) (! (=> (and (= (mod a 1099511627776) 0) (<= 0 b) (< b 1099511627776)) (= (bor a b) (+ a b))) :pattern ((bor a b)))))
+(assert (forall ((a Int) (b Int)) (! (=> (and (= (mod a 281474976710656) 0) (<= 0 b) (< b 281474976710656)) (= (bor a b) (+ a b))) :pattern ((bor a b)))))
+(assert (forall ((a Int) (b Int)) (! (=> (and (= (mod a 72057594037927936) 0) (<= 0 b) (< b 72057594037927936)) (= (bor a b) (+ a b))) :pattern ((bor a b)))))
 (assert (forall ((a Int) (b Int)) (! (=> (and (>= a 0) (>= b 0)) (and (<= 0 (band a b)) (<= (band a b) a) (<= (band a b) b))) :pattern ((band a b)))))
 (assert (forall ((a Int) (b Int)) (! (=> (and (>= a 0) (>= b 0)) (and (<= a (bor a b)) (<= b (bor a b)) (<= (bor a b) (+ a b)))) :pattern ((bor a b)))))
 `
